@@ -80,6 +80,46 @@ fn with_script(base: &ConvCase, ends: Option<Vec<usize>>, pause_us: u64) -> Conv
     c
 }
 
+/// The same bytes in two segments with a pause of more than five seconds in between (pauses are
+/// part of "how the bytes were segmented"; nothing in the library may give up on a slow client
+/// in a way that changes the outcome).
+fn run_long_pause(ctx: &Ctx, env: &Env, prop: &str, cseed: u64, base_case: &ConvCase, base_canon: &[String], at: usize) {
+    let rep = &ctx.rep;
+    let mut c = with_script(base_case, None, 0);
+    let half = base_case.script.iter().any(|s| matches!(s, Step::HalfClose));
+    let n = c.wire.len();
+    let mut s = vec![Step::Send(0, at), Step::SleepUs(5_600_000), Step::Send(at, n)];
+    if half {
+        s.push(Step::HalfClose);
+    }
+    s.push(Step::AwaitEnd);
+    c.script = s;
+    let obs = run_conv(env, &c);
+    if obs.connect_err.is_some() || (obs.timed_out.is_some() && !obs.healthy) {
+        rep.inconclusive("long-pause variant inconclusive");
+        return;
+    }
+    let cv = canon(&obs);
+    rep.inc("variant:two-segments-5.6s-apart");
+    rep.eval(Some(&format!("{}|{:x}|pause@{}", prop, cseed & 0xffff_ffff, at)));
+    if cv != base_canon {
+        let diff_at = cv.iter().zip(base_canon.iter()).position(|(a, b)| a != b).unwrap_or(cv.len().min(base_canon.len()));
+        rep.violation(Violation {
+            signature: format!("C13/{}/{}/differs-after-long-pause", prop, base_case.label),
+            what: format!("a pause of 5.6 s after byte {} of a {}-byte conversation changes the outcome (first difference in item #{})", at, n, diff_at),
+            detail: J::obj()
+                .set("corpus_property", J::s(prop))
+                .set("conversation_seed", J::S(cseed.to_string()))
+                .set("pause_after_byte", J::u(at))
+                .set("wire", J::S(crate::util::esc(&base_case.wire, 800)))
+                .set("baseline", J::A(base_canon.iter().map(J::s).collect()))
+                .set("variant", J::A(cv.iter().map(J::s).collect())),
+            case_seed: cseed,
+            mode: format!("{}:pause:{}", prop, at),
+        });
+    }
+}
+
 pub fn corpus_entry(seed: u64, i: u64) -> (String, u64) {
     let prop = CORPUS_PROPS[(i as usize) % CORPUS_PROPS.len()];
     (prop.to_string(), crate::util::mix(seed, 0xC13, i))
@@ -167,6 +207,12 @@ pub fn run(ctx: &Ctx) {
         let base = with_script(&g.case, None, 0);
         let bo = run_conv(&env, &base);
         let bc = canon(&bo);
+        if let Some(rest) = mode.splitn(2, ':').nth(1).and_then(|r| r.strip_prefix("pause:")) {
+            // "<prop>:pause:<byte>" (one run: each takes six seconds)
+            let at: usize = rest.parse().unwrap_or(1);
+            run_long_pause(ctx, &env, &prop, *cs, &base, &bc, at);
+            return;
+        }
         for _ in 0..(*repeat).max(1) {
             run_variant(ctx, &env, &prop, *cs, &base, &bo, &bc, ends.clone(), "replay");
         }
@@ -176,6 +222,7 @@ pub fn run(ctx: &Ctx) {
     let mut env = env;
     let mut conv_idx = ctx.shard as u64;
     let mut conversations = 0u64;
+    let mut long_pauses_done = 0usize;
     while ctx.time_left() {
         if env.cases_run >= 4000 {
             env = Env::new(false, 1);
@@ -202,6 +249,15 @@ pub fn run(ctx: &Ctx) {
         conversations += 1;
         ctx.rep.inc(&format!("corpus:{}:{}", prop, g.case.label.split('/').next().unwrap_or("")));
         let n = base.wire.len();
+        // two shards spend part of their budget on long pauses (one variant per conversation in
+        // the quick tier, up to four in the thorough one)
+        if ctx.shard % 8 == 5 && n > 2 && long_pauses_done < if ctx.thorough { 24 } else { 1 } {
+            for _ in 0..(if ctx.thorough { 4 } else { 1 }) {
+                let at = rng.range(1, n - 1);
+                run_long_pause(ctx, &env, &prop, cseed, &base, &bc, at);
+                long_pauses_done += 1;
+            }
+        }
         let slice_deadline = std::time::Instant::now() + std::time::Duration::from_millis(if ctx.thorough { 6000 } else { 1500 });
         // every single split point (all of them for short conversations, a sample otherwise)
         let mut points: Vec<usize> = (1..n).collect();
